@@ -172,6 +172,27 @@ PATHS = [b"/", b"/machine", b"/machine/", b"/Machine/", b"/MACHINE/", b"/vmAgent
 HNAMES = [b"x-ms-version", b"Metadata", b"metadata", b"Content-Type", b"content-type", b"Host", b"X-A", b"x-a",
           b"X-AB", b"x-ab", b"Accept", b"User-Agent", b"x-ms-azure-host-date", b"x-ms-azure-host-claims",
           b"X-Ms-Azure-Host-Date", b"content-length", b"a", b"b", b"B", b"z"]
+# the headers a real client sends, with realistic values; hyper treats some of them specially on the wire
+# (Expect: 100-continue triggers an interim 100 Continue, Connection / Transfer-Encoding / Content-Length are
+# framing) but hands ALL of them to the handler in the HeaderMap, and the proxy relays every one of them verbatim
+# (probed end to end), so each must be covered by the MAC like any other header
+STD_HEADERS = [(b"Expect", [b"100-continue"]), (b"TE", [b"trailers", b"gzip"]), (b"Trailer", [b"x-t"]),
+               (b"Connection", [b"keep-alive", b"close", b"x-a"]), (b"Upgrade", [b"websocket", b"h2c"]),
+               (b"Accept-Encoding", [b"gzip, deflate", b"identity"]), (b"User-Agent", [b"curl/8.0", b"python-requests/2.31"]),
+               (b"Via", [b"1.1 p"]), (b"Date", [b"Thu, 01 Oct 2026 21:02:29 GMT"]), (b"Range", [b"bytes=0-9"]),
+               (b"If-Match", [b"\"a\""]), (b"If-None-Match", [b"*"]), (b"If-Modified-Since", [b"Thu, 01 Oct 2026 21:02:29 GMT"]),
+               (b"If-Unmodified-Since", [b"Thu, 01 Oct 2026 21:02:29 GMT"]), (b"If-Range", [b"\"a\""]),
+               (b"Keep-Alive", [b"timeout=5"]), (b"Proxy-Connection", [b"keep-alive"]), (b"Cache-Control", [b"no-cache"]),
+               (b"Accept", [b"*/*", b"application/json"]), (b"Accept-Language", [b"en"]), (b"Authorization", [b"Bearer abc"]),
+               (b"Cookie", [b"a=b"]), (b"Origin", [b"http://x"]), (b"Referer", [b"http://x/y"]), (b"Pragma", [b"no-cache"]),
+               (b"Content-Encoding", [b"gzip"]), (b"Content-Length", [b"3"]), (b"Transfer-Encoding", [b"chunked"]), (b"Host", [b"168.63.129.16"])]
+FRAMING = (b"content-length", b"transfer-encoding")
+
+
+def recase(rng, n):
+    return rng.choice([n, n.lower(), n.upper()])
+
+
 HVALS = [b"2012-11-30", b"true", b"True ", b"application/json", b"text/xml; charset=utf-8", b"", b" ", b"\t",
          b"a:b", b"x: y", b"1", b"2", b"{ \"isRoot\": \"true\"}", b"Thu, 01 Oct 2026 21:02:29 GMT", b"v"]
 BLANKS = [b"", b"", b" ", b"  ", b"\t", b" \t ", b"\t\t"]
@@ -271,6 +292,20 @@ def gen_query(rng, allow_class=True):
     return b"&".join(segs)
 
 
+def near_misses(u):
+    """spellings around an exempt url: the url itself in several cases, with queries, extra segments, fragments"""
+    out = []
+    camel = u.replace(b"/vmagentlog", b"/vmAgentLog").replace(b"telemetrydata", b"telemetryData")
+    for sp in {u, u.upper(), camel}:
+        out += [sp, sp + b"?", sp + b"?x", sp + b"?comp=goalstate", sp + b"?x=1&y=2", sp + b"&x=1", sp + b"&", sp + b"/", sp + b"/x",
+                b"/x" + sp, sp + b"#f", sp + b"%20", b"/" + sp]
+        if b"?" in sp:
+            p_, q_ = sp.split(b"?", 1)
+            out += [p_, p_ + b"?", p_ + b"?x=1&" + q_, p_ + b"?" + q_ + b"=", p_.rstrip(b"/") + b"?" + q_, p_ + b"/?" + q_, p_ + b"x?" + q_,
+                    p_ + b"?" + q_[:-1], p_ + b"??" + q_]
+    return sorted(set(out))
+
+
 def gen_path(rng):
     if rng.random() < 0.75:
         return rng.choice(PATHS)
@@ -291,10 +326,13 @@ def gen_target(rng, allow_class=True):
     return t
 
 
-def gen_headers(rng, auth_name, allow_class=True, lo=0, hi=6, text=0.12, invalid=0.06):
+def gen_headers(rng, auth_name, allow_class=True, lo=0, hi=6, text=0.12, invalid=0.06, std=0.3):
     """text / invalid: per-header probability of a non-ASCII valid UTF-8 value / of a value that is not
-    valid UTF-8 (the latter only when allow_class)"""
+    valid UTF-8 (the latter only when allow_class); std: probability of one / two more standard request headers"""
     hs = []
+    while rng.random() < std and len(hs) < 3:
+        n, vs = rng.choice(STD_HEADERS)
+        hs.append((recase(rng, n), rng.choice(vs)))
     for _ in range(rng.randint(lo, hi)):
         r = rng.random()
         if r < 0.75:
@@ -525,20 +563,33 @@ def e2e_leg(ctx, auth_name, connections):
 def gen_e2e_connections(rng, auth_name, n_single, n_multi):
     K1 = {"guid": "9cf81e97-0316-4ad3-94a7-8ccbdee8ccbf", "key": "4A404E635266556A586E3272357538782F413F4428472B4B6250645367566B59"}
     K2 = {"guid": "5d1f2a3b-7c44-4e0a-9b21-0f6e8d7c6b5a", "key": "00112233445566778899aabbccddeeff0123456789abcdeffedcba9876543210"}
-    hop = (b"host", b"content-length", b"transfer-encoding", b"connection", b"expect", b"upgrade", b"te", b"trailer", ID_HEADER)
+    hop = FRAMING + (ID_HEADER,)     # the framing headers are http_request's to write, consistently with the body
 
-    def one(cls, allow_exempt=True):
+    def one(cls, allow_exempt=True, last=False):
         m = rng.choice([b"GET", b"POST", b"PUT", b"DELETE"])
         t = gen_target(rng, cls).split(b"#")[0]
         while b".." in t or (not allow_exempt and (m, t.lower()) in DOCUMENTED_EXEMPT):
             t = gen_target(rng, cls).split(b"#")[0]
-        hs = [(n, v.strip(b" \t")) for n, v in gen_headers(rng, auth_name, cls) if n.lower() not in hop]
+        hs = [(n, v.strip(b" \t")) for n, v in gen_headers(rng, auth_name, cls, std=0.45) if n.lower() not in hop]
+        if any(n.lower() == b"connection" and v.lower() == b"close" for n, v in hs) and not last:
+            hs = [(n, v) for n, v in hs if n.lower() != b"connection"]
         body = gen_body(rng) if m in (b"POST", b"PUT") else b""
         chunked = [rng.choice([1, 3, 7, 64])] if body and rng.random() < 0.35 else None
         return {"method": m, "target": t, "headers": hs, "body": body, "chunked": chunked}
     conns = []
     for _ in range(n_single):
-        conns.append({"initial_key": K1, "requests": [one(rng.random() < 0.3)]})
+        conns.append({"initial_key": K1, "requests": [one(rng.random() < 0.3, last=True)]})
+    # every standard request header once, alone, on a signed path with a body
+    for n, vs in STD_HEADERS:
+        if n.lower() not in hop:
+            conns.append({"initial_key": K1, "requests": [{"method": b"POST", "target": b"/machine?comp=x", "headers": [(n, vs[0])],
+                                                           "body": b"abc", "chunked": None}]})
+    # near misses of the exemption list on the signed path (and the exempt requests themselves)
+    for m, u in DOCUMENTED_EXEMPT:
+        for uu in near_misses(u):
+            if b".." in uu or b"#" in uu or not uu.startswith(b"/"):
+                continue
+            conns.append({"initial_key": K1, "requests": [{"method": m, "target": uu, "headers": [], "body": b"log", "chunked": None}]})
     for i in range(n_multi):
         k = i % 3
         if k == 0:      # accepted under key 1, rotated to key 2, then cleared
@@ -554,8 +605,17 @@ def gen_e2e_connections(rng, auth_name, n_single, n_multi):
 
 # ------------------------------------------------------------------------------------------
 def run(ctx):
-    vplib.gen_consts(ctx)
+    # a translator failure (a construct it parses is gone) must not end the run: the legs and the property
+    # predicate still look for a concrete failing input; the theorems then count as not re-proved
+    translator_msg = None
+    try:
+        vplib.gen_consts(ctx)
+    except vplib.Violation as v:
+        translator_msg = "constants translator failed (%s): no theorem is re-proved against the current sources" % str(v)[:400]
+        ctx.log(translator_msg)
     proofs_ok, detail = vplib.check_proofs(ctx)
+    if translator_msg:
+        proofs_ok, detail = False, translator_msg
     ctx.log("proofs:", proofs_ok, detail[:300])
     if proofs_ok and not ctx.quick:
         ok, log = vplib.coqchk(ctx)
@@ -565,7 +625,13 @@ def run(ctx):
     bins = vplib.cargo_build(ctx, "harness", ["c04"])
     ctx.log("driver built")
     rng = ctx.rng
-    _, _, cstr, skip_pairs_now = gen_consts.generate()
+    try:
+        _, _, cstr, skip_pairs_now = gen_consts.generate()
+    except gen_consts.Missing:
+        cstr, skip_pairs_now = {"authorization_header": "x-ms-azure-host-authorization", "date_header": "x-ms-azure-host-date"}, []
+    for n in gen_consts.NOTES:
+        if "should_skip_sig" in n and n not in ctx.assumptions:
+            ctx.assumptions.append(n)
     AUTH = cstr["authorization_header"].encode()
     known = {f.get("class"): f for f in vplib.known_findings("C04")}
 
@@ -581,10 +647,11 @@ def run(ctx):
                      b"/machine?comp=goalstate", b"/metadata/instance?api-version=2018-02-01", b"/vmAgentLog", b"/machine/?comp=telemetrydata"]
     U = [(b"GET", t) for t in fixed_targets]
     # the exemption list as the source states it NOW, and as documented, in several spellings
-    for m, u in [(a.encode(), b.encode()) for a, b in skip_pairs_now] + DOCUMENTED_EXEMPT:
-        for mm in {m, m.lower(), b"GET", b"PUT", b"POST"}:
-            for uu in {u, u.upper(), u.title(), u + b"?", u + b"&", u + b"/", u.rstrip(b"/") or b"/"}:
+    for m, u in sorted(set([(a.encode(), b.encode()) for a, b in skip_pairs_now] + DOCUMENTED_EXEMPT)):
+        for mm in sorted({m, m.lower(), b"GET", b"PUT", b"POST", b"DELETE"}):
+            for uu in near_misses(u):
                 U.append((mm, uu))
+    nU = max(nU, len(U) + 400)
     while len(U) < nU:
         U.append((rng.choice(METHODS), gen_target(rng)))
     U_bad = []
@@ -592,7 +659,8 @@ def run(ctx):
         t = bytearray(gen_target(rng))
         t.insert(rng.randint(1, len(t)), rng.choice([0x20, 0x3C, 0x7F, 0x80, 0xC3, 0x0A, 0x5C, 0x5E]))
         U_bad.append((rng.choice(METHODS), bytes(t)))
-    U_abs = [(m, b"http://168.63.129.16" + t) for m, t in [(b"PUT", b"/vmagentlog"), (b"POST", b"/machine/?comp=telemetrydata"),
+    U_abs = [(m, b"http://168.63.129.16" + t) for m, t in [(b"PUT", b"/vmagentlog"), (b"PUT", b"/vmAgentLog"), (b"PUT", b"/vmAgentLog?x=1"),
+                                                            (b"POST", b"/machine/?comp=telemetrydata"), (b"POST", b"/Machine/?comp=telemetryData"),
                                                             (b"GET", b"/machine?comp=goalstate")]]
 
     H = [[(b"x", b"1"), (b"x", b"2")], [(b"x", b"2"), (b"x", b"1")], [(b"X", b"1"), (b"b", b" \tv "), (b"x", b"2")], []]
@@ -664,6 +732,8 @@ def run(ctx):
     for m, host, port, t, hs, body, key, guid in B:
         url = b"http://" + host + (b":%d" % port if port else b"") + t
         lines.append("B %s %s %s %s %s %s" % (hx(m), hx(url), hx(body), hx(key), hx(guid), pairs_fields(list(hs.items()))))
+    nR = 25 if ctx.quick else 250
+    lines.append("R %d" % nR)
     out = [json.loads(l) for l in vplib.run_lines(bins["c04"], lines, timeout=900)]
     assert len(out) == len(lines), (len(out), len(lines))
     pos = 0
@@ -676,6 +746,7 @@ def run(ctx):
     oU, oUbad, oUabs = take(len(U)), take(len(U_bad)), take(len(U_abs))
     oH, oHbad = take(len(H)), take(len(H_bad))
     oS, oB = take(len(S)), take(len(B))
+    oR = take(1)[0]
     ctx.log("implementation ran on %d script lines" % len(lines))
 
     disagreements, failures = [], []
@@ -922,6 +993,44 @@ def run(ctx):
     failures.sort(key=fkey)
     disagreements.sort(key=lambda d: len(str(d.get("case", {}).get("driver_line", ""))))
 
+    # ---------------- R leg: the agent's own calls while the key keeper rotates the latched key ----------------
+    # (pairing of key id and key value under rotation is C10's subject; here the host-side view: every request
+    #  the mock host received must verify under the key NAMED in its authorization header)
+    if oR.get("panic"):
+        fail({"leg": "R", "driver_line": "R %d" % nR}, "panic in the agent's own host calls", oR)
+    else:
+        rot_keys = {g.encode(): strict_unhex(k.encode()) for g, k in oR["keys"]}
+        calls, live = [], []
+        for q in oR["requests"]:
+            msg = parse_raw_request(unhx(q["head"]) + b"\r\n\r\n" + unhx(q["body"]))
+            if msg is None:
+                continue
+            method, target, headers, rbody = msg
+            path, query = split_target(target)
+            calls.append("c04_sig_case %s %s %s %s %s" % (cb(method), cb(rbody), cb(path), cob(query), cpairs(headers)))
+            live.append((method, target, path, query, headers, rbody))
+        count("R_own_calls_received_by_mock_host", len(live))
+        count("R_key_rotations_during_the_calls", oR.get("rotations", 0))
+        if len(live) < nR:
+            disagree({"leg": "R", "driver_line": "R %d" % nR}, "at least %d requests at the mock host" % nR, len(live))
+        guids_seen = set()
+        for (method, target, path, query, headers, rbody), res in zip(live, coq_cases(ctx, "rot", calls, per_expr=15)):
+            case = {"leg": "R", "method": method, "target": target, "headers_received": headers, "driver_line": "R %d" % nR}
+            auth = [v for n, v in headers if n.lower() == AUTH]
+            parts = auth[0].split(b" ") if len(auth) == 1 else []
+            if len(parts) != 3 or parts[0] != SCHEME or parts[1] not in rot_keys:
+                fail(case, "own call under a latched key does not carry exactly one `Azure-HMAC-SHA256 <guid of a latched key> <hex MAC>` header", {"authorization": auth})
+                continue
+            guids_seen.add(parts[1])
+            kb = rot_keys[parts[1]]
+            if parts[2] != hmac_hex(kb, spec_string_to_sign(AUTH, method, rbody, headers, path, query)):
+                fail(case, "own call: the MAC does not verify under the key NAMED in the authorization header (key id and key value of different keys)",
+                     {"authorization": auth, "classes": [], "explained_by_model": False})
+            elif parts[2] != hmac_hex(kb, tb(res[0])):
+                disagree(case, hmac_hex(kb, tb(res[0])), parts[2])
+        count("R_distinct_key_ids_seen", len(guids_seen))
+    ctx.log("R leg compared")
+
     # ---------------- known findings ----------------
     def known_filter(f):
         obs = f.get("impl")
@@ -933,8 +1042,9 @@ def run(ctx):
         return None
 
     n_e2e = dist.get("E2E_requests_seen_by_mock_host", 0)
-    total = len(U) + len(H) + len(S) + len(B) + len(U_bad) + len(U_abs) + len(H_bad) + n_e2e
-    compared = dist.get("U_cases", 0) + dist.get("H_cases", 0) + dist.get("S_cases", 0) + dist.get("B_cases", 0) + n_e2e
+    n_rot = dist.get("R_own_calls_received_by_mock_host", 0)
+    total = len(U) + len(H) + len(S) + len(B) + len(U_bad) + len(U_abs) + len(H_bad) + n_e2e + n_rot
+    compared = dist.get("U_cases", 0) + dist.get("H_cases", 0) + dist.get("S_cases", 0) + dist.get("B_cases", 0) + n_e2e + n_rot
     distinct = len({(m, t) for m, t in U}) + len({tuple(h) for h in H if h}) + len({(m, t, tuple(h), b, k) for m, t, h, b, k in S}) + len(live)
     dist["known_finding_failures"] = dict(n_known)
     ctx.coverage.update({
